@@ -16,6 +16,7 @@ R-ACOS   the argument of every math.acos / math.asin is clamped to [-1, 1].
 from __future__ import annotations
 
 import ast
+import copy
 import math
 from typing import Dict, List, Optional, Set, Tuple
 
@@ -113,11 +114,64 @@ class VecCtx:
         if isinstance(e, ast.Call) and isinstance(e.func, ast.Name) and e.func.id == "acute" and len(e.args) == 1:
             folded = True
             e = e.args[0]
+        elif isinstance(e, ast.Call) and isinstance(e.func, ast.Name) and e.func.id == "min" and len(e.args) == 2:
+            # min(theta, pi - theta): the angle folded at pi/2, written out
+            a0, a1 = self.expand(e.args[0]), self.expand(e.args[1])
+            for t, c in ((a0, a1), (a1, a0)):
+                if isinstance(c, ast.BinOp) and isinstance(c.op, ast.Sub) and self.const(c.left) is not None \
+                        and abs(self.const(c.left) - math.pi) < 1e-12 and txt(c.right) == txt(t):
+                    folded = True
+                    e = t
         if isinstance(e, ast.Call) and isinstance(e.func, ast.Attribute) and e.func.attr == "angle" and len(e.args) == 1:
             return e.func.value, e.args[0], folded
         if isinstance(e, ast.Call) and isinstance(e.func, ast.Name) and e.func.id == "angle" and len(e.args) == 2:
             return e.args[0], e.args[1], True  # calc.angle is folded
         return None
+
+    def _parallel_pair(self, e: ast.AST) -> Optional[frozenset]:
+        """the pair of direction expressions whose parallelism `e` tests:  X.parallel(Y)  or a call of a two-parameter
+        module function that, for the argument types at this call, returns  P.parallel(Q)  of its parameters
+        (calc.angle.parallel on two Lines / two Planes / two Vectors)"""
+        if isinstance(e, ast.Call) and isinstance(e.func, ast.Attribute) and e.func.attr == "parallel" and len(e.args) == 1:
+            return frozenset([self.canon(e.func.value), self.canon(e.args[0])])
+        if not (isinstance(e, ast.Call) and isinstance(e.func, ast.Name) and len(e.args) == 2 and not e.keywords):
+            return None
+        b = self.fi.resolve(e.func.id)
+        if b is None or b.kind != "func" or len(b.target.params) != 2 or b.target.cls is not None:
+            return None
+        h = b.target
+        eng = self.ctx.types
+        ts = tuple(eng.types_at(self.fi, a) for a in e.args)
+        if any(len(t) != 1 for t in ts):
+            return None
+        try:
+            sm = eng.summary(h, ts)
+        except Exception:
+            return None
+        if sm is None:
+            return None
+        rets = [r for r in walk_local(h.node) if isinstance(r, ast.Return) and id(r) in sm.reached]
+        if len(rets) != 1 or rets[0].value is None:
+            return None
+        v = rets[0].value
+        if not (isinstance(v, ast.Call) and isinstance(v.func, ast.Attribute) and v.func.attr == "parallel" and len(v.args) == 1):
+            return None
+        sub = dict(zip(h.params, e.args))
+
+        class Sub(ast.NodeTransformer):
+            bad = False
+
+            def visit_Name(self_, n):
+                if n.id in sub:
+                    return copy.deepcopy(sub[n.id])
+                Sub.bad = True
+                return n
+        Sub.bad = False
+        u = Sub().visit(copy.deepcopy(v.func.value))
+        w = Sub().visit(copy.deepcopy(v.args[0]))
+        if Sub.bad:
+            return None
+        return frozenset([self.canon(u), self.canon(w)])
 
     def edge_facts(self):
         """[(edge, pair(frozenset of canon), kind, c)]  kind in nonpar | lower | upper | near_axis_pair"""
@@ -125,11 +179,11 @@ class VecCtx:
         for n in self.g.conds():
             e = n.ast
             # X.parallel(Y) / parallel(X, Y)
-            if isinstance(e, ast.Call) and isinstance(e.func, ast.Attribute) and e.func.attr == "parallel" and len(e.args) == 1:
-                pair = frozenset([self.canon(e.func.value), self.canon(e.args[0])])
+            pp = self._parallel_pair(e)
+            if pp is not None:
                 for y, l in self.g.succ[n.id]:
                     if l == "F":
-                        out.append(((n.id, y, l), pair, "nonpar", 0.0))
+                        out.append(((n.id, y, l), pp, "nonpar", 0.0))
                 continue
             if not (isinstance(e, ast.Compare) and len(e.ops) == 1):
                 continue
@@ -226,6 +280,24 @@ def count_cross_calls(repo) -> int:
     return k
 
 
+def module_closure(ctx, fi: FunctionInfo) -> List[FunctionInfo]:
+    """fi and the module-level functions of fi's own module it reaches through resolved calls (its private helpers)"""
+    eng = ctx.types
+    by_qual = {f.qual: f for f in ctx.repo.functions(include_visualization=False)}
+    out, todo = [fi], [fi]
+    while todo:
+        f = todo.pop()
+        for n in walk_local(f.node):
+            if not isinstance(n, ast.Call):
+                continue
+            for q in sorted(eng.call_targets.get((f.qual, id(n)), ())):
+                h = by_qual.get(q)
+                if h is not None and h.cls is None and h.module is fi.module and h not in out:
+                    out.append(h)
+                    todo.append(h)
+    return out
+
+
 def check_cross(ctx, res, fi: FunctionInfo, rule: str) -> int:
     """report the R-CROSS obligations of one function; returns their number"""
     sites, vc = cross_sites(ctx, fi)
@@ -239,6 +311,54 @@ def check_cross(ctx, res, fi: FunctionInfo, rule: str) -> int:
         use = use_nodes[0]
         xdefs = vc.defs_of(X)
         ydefs = vc.defs_of(Y)
+        # an operand chosen by a helper of the module (`reference = _reference_axis(normal)`): one case per return of the
+        # helper, discharged with the angle facts that hold at that return (in the helper's own CFG)
+        handled = False
+        for (A, B) in ((X, Y), (Y, X)):
+            be = vc.expand(B)
+            if not (isinstance(be, ast.Call) and isinstance(be.func, ast.Name) and len(be.args) == 1 and not be.keywords):
+                continue
+            hb = fi.resolve(be.func.id)
+            if hb is None or hb.kind != "func" or hb.target.module is not fi.module or len(hb.target.params) != 1:
+                continue
+            h = hb.target
+            if vc.canon(be.args[0]) != vc.canon(A):
+                continue  # the helper must be choosing the axis for THIS other operand
+            hv = VecCtx(ctx, h)
+            hfacts = hv.edge_facts()
+            pname = h.params[0]
+            for r in [x_ for x_ in walk_local(h.node) if isinstance(x_, ast.Return) and x_.value is not None]:
+                n_ob += 1
+                rn = hv.g.nodes_of(r)
+                j = hv.axis_of(r.value)
+                done = None
+                if rn:
+                    ok_, edges_ = hv.holds(rn[0], frozenset([pname, hv.canon(r.value)]), "nonpar", hfacts)
+                    if ok_:
+                        done = "%s returns `%s` only where it is not parallel to its argument: %s" % (
+                            h.short, txt(r.value)[:30], "; ".join(hv.g.describe_edge(e_) for e_ in edges_[:2]))
+                    elif j is not None:
+                        for i in range(3):
+                            if i == j:
+                                continue
+                            ok_, edges_ = hv.holds(rn[0], frozenset([pname, "axis%d" % i]), "near", hfacts)
+                            if ok_:
+                                done = "%s returns e%d only where its argument is within pi/4 of +-e%d (%s)" % (
+                                    h.short, j, i, "; ".join(hv.g.describe_edge(e_) for e_ in edges_[:2]))
+                                break
+                label = "%s: %s x %s(...) -> %s normalised" % (fi.short, vc.canon(A), h.short, txt(r.value)[:30])
+                res.ob(rule, h.where(r), label, done is not None, done or "no guard excludes parallel AND anti-parallel operands")
+                if done is None:
+                    res.violation(rule, h, r,
+                                  "%s hands `%s` to the normalised cross product with `%s` in %s, but nothing on the way to this return "
+                                  "excludes that the two are parallel or anti-parallel: a zero cross product makes normalized() divide by zero"
+                                  % (h.short, txt(r.value)[:40], vc.canon(A), fi.short),
+                                  construct="%s: cross(%s, %s -> %s).normalized()" % (fi.short, vc.canon(A), h.short, txt(r.value)[:30]),
+                                  detail={"rule": "R-CROSS through a helper that chooses the reference axis"})
+            handled = True
+            break
+        if handled:
+            continue
         for xv, xd in xdefs:
             for yv, yd in ydefs:
                 n_ob += 1
@@ -363,10 +483,42 @@ def check_acos(ctx, res, fi: FunctionInfo, rule: str) -> int:
         else:
             ok = _is_clamped(arg)
         if not ok:
-            # range guard dominating the call:  -1 <= x <= 1  (both bounds)
-            ok = False
+            # range guards dominating the call: on every path to it both  x <= 1  and  x >= -1  have been established
+            # (`if x > 1: return 0.0`, `if x < -1: return math.pi`)
+            g = ctx.cfg(fi)
+            par = {}
+            for x_ in ast.walk(fi.node):
+                for ch in ast.iter_child_nodes(x_):
+                    par[id(ch)] = x_
+            stmt = c
+            while id(stmt) in par and not isinstance(stmt, ast.stmt):
+                stmt = par[id(stmt)]
+            nodes = g.nodes_of(stmt)
+            want = txt(arg)
+            hi = lo = False
+            NEG = {ast.Lt: ast.GtE, ast.LtE: ast.Gt, ast.Gt: ast.LtE, ast.GtE: ast.Lt}
+            FLIP = {ast.Lt: ast.Gt, ast.LtE: ast.GtE, ast.Gt: ast.Lt, ast.GtE: ast.LtE}
+            for cn, _, lab in (g.dominating_edges(nodes[0]) if nodes else []):
+                e = g.nodes[cn].ast
+                if not (isinstance(e, ast.Compare) and len(e.ops) == 1 and type(e.ops[0]) in NEG):
+                    continue
+                op, l_, r_ = type(e.ops[0]), e.left, e.comparators[0]
+                if txt(r_) == want and const_num(l_) is not None:
+                    op, l_, r_ = FLIP[op], r_, l_
+                if txt(l_) != want or const_num(r_) is None:
+                    continue
+                k = const_num(r_)
+                if lab == "F":
+                    op = NEG[op]
+                if op in (ast.Lt, ast.LtE) and k <= 1:
+                    hi = True
+                if op in (ast.Gt, ast.GtE) and k >= -1:
+                    lo = True
+            # the guarded variable must not be re-assigned between the guards and the call
+            stable = isinstance(arg, ast.Name) and len(asg.get(arg.id, [])) <= 1
+            ok = hi and lo and stable
         res.ob(rule, fi.where(c), "%s: %s(...)" % (fi.short, name), ok,
-               "argument clamped to [-1, 1]" if ok else "argument `%s` is not clamped" % txt(arg)[:60])
+               "argument clamped / guarded into [-1, 1]" if ok else "argument `%s` is not clamped" % txt(arg)[:60])
         if not ok:
             res.violation(rule, fi, c,
                           "%s is applied to `%s`, which rounding can push outside [-1, 1] (e.g. 1.0000000000000002 for "
